@@ -69,7 +69,11 @@ run-time primitives are in `Base/PyList.lean`, which the `imports` of the genera
   `rec_fuel` = bound on the recursion depth, `inout` = `{parameter: local}` for list parameters that the function
   mutates in place): the function becomes `F.rec : Nat -> params -> F.S -> Py.M F.S` (fuel exhausted = `.fuel`),
   the call runs `F.rec fuel args {}`, takes the returned value (every path must end in `return e`) and copies the
-  callee's final list back into the caller's argument local for every `inout` parameter;
+  callee's final list back into the caller's argument local for every `inout` parameter; `rec_env` lists Lean
+  parameters that are not parameters of the Python function (a setting the externals read): the call passes them
+  on unchanged and has no hole for them; a call inside a `for` loop of the function runs the argument `self_rec`
+  of the loop function, which `F.rec` instantiates with `F.rec fuel` (the loop functions are defined first);
+  `iter_view` = `{type: (template, list type)}`: iterating over an object of that type iterates over the list;
 * `a ** b` (natural exponent), `max(a, b)` / `min(a, b)` (integers: `max` / `min`; floats: `X.pymax` / `X.pymin`),
   list literals `[a, b]`, `[e] * n` (`List.replicate`), a list comprehension with one generator and a pure element
   (`List.map`; a comprehension variable that is a Lean keyword gets the suffix `_` like a declared local), a conditional expression whose branches are `Nat` and `Int` (coerced to `Int`), f-strings whose
@@ -736,6 +740,10 @@ class Fn:
             if re.fullmatch(r"List \(.+ × .+\)", d.ty):
                 return d          # a dictionary kept as the list of its items
         e = self.ce(node)
+        if e.ty in self.p.get("iter_view", {}):
+            # iterating over an object of a profile type: over the list the profile names (`for v in value`)
+            tmpl, lty = self.p["iter_view"][e.ty]
+            return self.bind1(e, lambda x: tmpl.format(paren(x)), lty)
         if e.ty.startswith("Stack "):
             # iterating over a list kept as a stack visits it from the bottom
             return self.bind1(e, lambda x: f"({x}).reverse", e.ty.replace("Stack ", "List "))
@@ -1094,7 +1102,9 @@ class Fn:
             if arr is not None:
                 wb = f"{{ σ with {arr} := σ.{arr} ++ [σ.{s.target.id}] }}"
             kloop = f"{ln} rest" if wb is None else f"(fun σ => {ln} rest {wb})"
+            self.loop_depth = getattr(self, "loop_depth", 0) + 1
             body = self.cs(s.body, kloop, kloop, "Except.ok")
+            self.loop_depth -= 1
             self.aux.append(f"def {ln} : List {paren(ety)} → {self.name}.S → Py.M {self.name}.S\n  | [], σ => .ok σ\n  | x :: rest, σ =>\n{ind(tgt_assign, 4)}\n{ind(body, 4)}")
             if arr is not None:
                 return f"{ln} σ.{arr} {{ σ with {arr} := [] }} >>= fun σ =>\n{after()}"
@@ -1110,7 +1120,9 @@ class Fn:
             if fuel is None:
                 raise Untranslatable(f"no fuel bound for while loop {self.nloop}")
             c = self.truthy(self.ce(s.test))
+            self.loop_depth = getattr(self, "loop_depth", 0) + 1
             body = self.cs(s.body, f"{ln} fuel", f"{ln} fuel", "Except.ok")
+            self.loop_depth -= 1
             if c.pure:
                 step = f"if {c.term} then\n{ind(body)}\nelse .ok σ"
             else:
@@ -1143,10 +1155,16 @@ class Fn:
         lists it mutates in place"""
         if not self.ret_ty or self.locals.get(target) != self.ret_ty:
             raise Untranslatable(f"recursive call: '{target}' must have the return type {self.ret_ty}")
-        if len(argnodes) != len(self.params):
+        env = self.p.get("rec_env", [])
+        if len(argnodes) != len([1 for pn, _ in self.params if pn not in env]):
             raise Untranslatable("recursive call: one hole per parameter expected")
         args, wb = [], []
-        for (pn, pt), node in zip(self.params, argnodes):
+        argnodes = list(argnodes)
+        for pn, pt in self.params:
+            if pn in env:
+                args.append(pn)      # a parameter that is not one of the Python function (`rec_env`) is passed on unchanged
+                continue
+            node = argnodes.pop(0)
             a = self.ce(node)
             if not a.pure or a.ty != pt:
                 raise Untranslatable(f"recursive call: argument for '{pn}' has type {a.ty} (expected a pure {pt})")
@@ -1157,7 +1175,8 @@ class Fn:
                 wb.append(f"{node.id} := r.{self.p['inout'][pn]}")
         self.recursive = True
         wb.append(f"{target} := v")
-        return (f"{self.name}.rec fuel {' '.join(args)} {{}} >>= fun r =>\nPy.deref r.ret >>= fun v =>\n"
+        callee = "self_rec" if getattr(self, "loop_depth", 0) else f"{self.name}.rec fuel"
+        return (f"{callee} {' '.join(args)} {{}} >>= fun r =>\nPy.deref r.ret >>= fun v =>\n"
                 f"let σ := {{ σ with {', '.join(wb)} }}\n{after()}")
 
     def _let(self, name, e):
@@ -1237,8 +1256,8 @@ class Fn:
             out.append(a + "\n")
         text = "\n".join(out)
         if getattr(self, "recursive", False):
-            if self.nloop:
-                raise Untranslatable("loops in a self-recursive function")
+            if self.nloop and any(isinstance(n, ast.While) for n in ast.walk(self.fdef)):
+                raise Untranslatable("while loops in a self-recursive function")
             if not diverts(self.fdef.body) or any(isinstance(n, ast.Return) and n.value is None for n in ast.walk(self.fdef)):
                 raise Untranslatable("a self-recursive function must end every path in `return <value>`")
             if "rec_fuel" not in self.p:
@@ -1248,6 +1267,14 @@ class Fn:
                    f"  | 0, {', '.join('_' for _ in self.params)}, _ => .error .fuel\n"
                    f"  | fuel + 1, {', '.join(n for n, _ in self.params)}, σ =>\n{ind(body, 4)}\n\n")
             main = f"def {self.name}.run {params} (σ : {self.name}.S) : Py.M {self.name}.S :=\n  {self.name}.rec ({self.p['rec_fuel']}) {pnames} σ\n"
+            # `for` loops of a self-recursive function: the loop functions are defined before `rec`, so they take the
+            # callee (`rec` with one unit of fuel less) as the argument `self_rec`
+            for i in range(1, self.nloop + 1):
+                ln = f"{self.name}.loop{i}"
+                text = re.sub(r"(?<!def )" + re.escape(ln) + r"(?!\d)", f"{ln} {pnames} self_rec", text)
+                text = re.sub(r"def " + re.escape(ln) + " " + re.escape(params) + " :",
+                              f"def {ln} {params} (self_rec : {sig} → {self.name}.S → Py.M {self.name}.S) :", text)
+                rec = re.sub(re.escape(ln) + r"(?!\d)", f"{ln} {pnames} ({self.name}.rec fuel)", rec)
             return text + rec + main
         main = f"def {self.name}.run {params} (σ : {self.name}.S) : Py.M {self.name}.S :=\n{ind(body)}\n"
         if params:
